@@ -23,6 +23,7 @@ type Opts struct {
 	PixFill   uint8       `json:"pixfill,omitempty"`
 	MaxPixels uint32      `json:"max_pixels,omitempty"`
 	DstCap    uint32      `json:"dst_cap,omitempty"` // capacity of the destination buffer (0 = 4 MiB)
+	Clip      uint8       `json:"clip,omitempty"`    // pixel buffer smaller than the image: 1 one row short, 2 one column short, 3 half, 4 1x1, 5 half the rows
 	Dump      uint8       `json:"dump,omitempty"`
 	Pure      bool        `json:"pure,omitempty"`
 	Seed      uint64      `json:"seed,omitempty"`
@@ -203,7 +204,7 @@ func AppendPlan(r *stdh.Req, k stdh.Kind, payload []byte, plan stdgen.Plan, o Op
 	r.Dst(plan.DstMode, dcap, plan.DstStep, plan.DstFill, disciplined)
 	r.Work(plan.WorkMode, plan.WorkFill)
 	if k.Iface == stdh.IMG {
-		r.Pix(o.PixFmt, o.Blend, o.PixFill, o.MaxPixels, o.Dump)
+		r.Pix(o.PixFmt, o.Blend, o.PixFill, o.MaxPixels, o.Dump|o.Clip<<4)
 	}
 	if plan.TokCap != 0 {
 		r.Tok(plan.TokCap)
